@@ -46,4 +46,11 @@ MUTANTS = [
  dict(id='C04-record-rejected', file='src/deep/processor/context/action_context.py', old="        if self.has_triggered():\n", new="        if True:\n", props=['C10', 'C04']),
  dict(id='C04-window-ignored', file='src/deep/api/tracepoint/tracepoint_config.py', old="        return self._start <= ts <= self._end", new="        return self._start <= ts", props=['C04']),
  dict(id='C04-boundary-strict', file='src/deep/api/tracepoint/trigger.py', old="if time_since_last < self.__fire_period_ns():", new="if time_since_last <= self.__fire_period_ns() and self.__fire_period_ns() > 0:", props=['C04']),
+ dict(id='C11-log-ignores-nocollect', file='src/deep/api/tracepoint/trigger.py', old="    if SNAPSHOT not in args or args[SNAPSHOT] != NO_COLLECT:\n        return None\n", new="", props=['C11']),
+
+ dict(id='C11-method-name-ignored-with-stage', file='src/deep/api/tracepoint/trigger.py', old="        location = FunctionLocation(path, args.get(METHOD_NAME, None), position)", new="        location = FunctionLocation(path, args.get(METHOD_NAME, None) if STAGE not in args else None, position)", props=['C11']),
+ dict(id='C11-merge-loses-watches', file='src/deep/grpc/__init__.py', old="            all_triggers[location_id].merge_actions(trigger.actions)", new="            all_triggers[location_id].merge_actions([a for a in trigger.actions if not a.config.get('watches')])", props=['C11']),
+ dict(id='C11-metric-first-only', file='src/deep/api/tracepoint/trigger.py', old="        'metrics': metrics,\n", new="        'metrics': metrics[:1],\n", props=['C11', 'C17']),
+ dict(id='C11-condition-dropped-for-metric', file='src/deep/api/tracepoint/trigger.py', old="    condition = args[CONDITION] if CONDITION in args else None\n    return LocationAction(tp_id, condition, {\n        'metrics'", new="    condition = None\n    return LocationAction(tp_id, condition, {\n        'metrics'", props=['C11']),
+ dict(id='C11-skip-after-bad', file='src/deep/grpc/__init__.py', old="            logging.warning(\"Cannot process tracepoint %s, skipping it.\", r.ID)\n            continue", new="            logging.warning(\"Cannot process tracepoint %s, skipping it.\", r.ID)\n            break", props=['C11', 'C12']),
 ]
